@@ -163,6 +163,8 @@ def run(prop, tier, seed, replay, work, t0):
                        'script': pr[3] if len(pr) > 3 else None})
     hangs = [c for c in harness_errors if 'hang' in c.get('tags', [])]
     harness_errors = [c for c in harness_errors if 'hang' not in c.get('tags', [])]
+    crashes = [c for c in harness_errors if 'impl-internal-error' in c.get('tags', [])]
+    harness_errors = [c for c in harness_errors if 'impl-internal-error' not in c.get('tags', [])]
     for c in harness_errors:
         broken.append({'what': 'implementation raised outside the modelled observations',
                        'detail': c.get('error', '')[-800:], 'script': c.get('script')})
@@ -207,6 +209,16 @@ def run(prop, tier, seed, replay, work, t0):
         hangs.sort(key=lambda c: len(json.dumps(c['script'])))
         path = write_replay(prop, hangs[0], 'implementation-does-not-terminate', hangs[0].get('error', '')[:300],
                             {'occurrences': len(hangs)})
+        lines.append('VIOLATION property=%s replay=%s' % (prop, os.path.relpath(path, lib.VERIF)))
+        n_unknown += 1
+        exit_code = 1
+    # a script on which the code under verification raises an internal error (NameError / AttributeError / TypeError
+    # originating in /repo/scales) out of one of its entry points, where the model predicts a defined outcome
+    if crashes:
+        crashes.sort(key=lambda c: len(json.dumps(c['script'])))
+        path = write_replay(prop, crashes[0], 'implementation-raises-internal-error',
+                            crashes[0].get('origin', '') + ' | ' + crashes[0].get('error', '')[-400:],
+                            {'occurrences': len(crashes)})
         lines.append('VIOLATION property=%s replay=%s' % (prop, os.path.relpath(path, lib.VERIF)))
         n_unknown += 1
         exit_code = 1
@@ -288,6 +300,7 @@ def run(prop, tier, seed, replay, work, t0):
         'exhaustive': bool(hasattr(mod, 'exhaustive')),
         'broken': broken[:5],
         'hangs': len(hangs),
+        'internal_errors': len(crashes),
     }
     if gen_info:
         coverage['source_derived'] = gen_info.get('info')
